@@ -8,6 +8,7 @@ closure and the interpreted (dynamic) calls are allowed.
 plan = list of actions:
   ["c", j, subplan]            call n_j(subplan)
   ["cc", j, subplan]           call it twice
+  ["ci", j, subplan]           call n_j.ignore_result()(subplan)
   ["b", j, [p1, p2, ...]]      n_j.call_batch([{plan: p1}, ...], raise_first_exception=False)
   ["x", j, subplan]            call n_j(subplan) and swallow any exception
   ["r", url]                   obtain a resource handle
@@ -41,6 +42,8 @@ def _interp(me, plan, kwargs):
         k = act[0]
         if k == "c":
             out.append(nodes[act[1]](act[2]))
+        elif k == "ci":  # the body is not interested in the value of the sub-call
+            out.append(nodes[act[1]].ignore_result()(act[2]))
         elif k == "cc":
             out.append(nodes[act[1]](act[2]))
             out.append(nodes[act[1]](act[2]))
